@@ -600,18 +600,31 @@ pub fn foreign_srv_update_case(seed: u64, l: &mut Local) {
     for t in [&mut s.ttl_ptr, &mut s.ttl_srv, &mut s.ttl_addr] {
         *t = *rng.pick(&[120u32, 4500]);
     }
-    let without_txt = rng.chance(2, 3);
+    let without_txt = rng.chance(1, 2);
     let mut m = wire::Message::response();
     m.answers = s.records().into_iter().filter(|r| !(without_txt && r.rtype == wire::T_TXT)).collect();
     w.inject_msg(h, 2, scen::peer4(54), &m);
     w.run_for(1500 + rng.below(2500));
     // the move, told inside the other service's announcement
     let mut s2 = s.clone();
-    s2.port = s.port + 100;
+    // (the SRV record, the TXT record of an instance that has one, or both)
+    let what = if without_txt { 0 } else { 1 + util::mix(seed, 0x7C) % 2 };
+    if what != 1 {
+        s2.port = s.port + 100;
+    }
+    if what != 0 {
+        s2.txt = wire::txt_encode(&[(b"id".to_vec(), Some(b"moved".to_vec()))]);
+    }
     let f = Svc::new("_elsewhere._tcp.local.", "thing", host, [10, 0, 0, 54]);
     let mut m = f.announce();
-    let at = rng.usize(m.answers.len()) + 1;
-    m.answers.insert(at.min(m.answers.len()), s2.srv());
+    if what != 1 {
+        let at = rng.usize(m.answers.len()) + 1;
+        m.answers.insert(at.min(m.answers.len()), s2.srv());
+    }
+    if what != 0 {
+        let at = rng.usize(m.answers.len()) + 1;
+        m.answers.insert(at.min(m.answers.len()), s2.txt());
+    }
     w.inject_msg(h, 2, scen::peer4(54), &m);
     w.run_for(1200 + rng.below(1800));
     // another address of the host
@@ -622,7 +635,7 @@ pub fn foreign_srv_update_case(seed: u64, l: &mut Local) {
     let horizon = w.now() + 4000;
     w.run_until(horizon);
     l.evaluations += 1;
-    l.distinct.insert(util::fnv_str(&format!("foreign-srv|{without_txt}|{stepping:?}|{host}|{}", s.ttl_srv)));
+    l.distinct.insert(util::fnv_str(&format!("foreign-srv|{without_txt}|{what}|{stepping:?}|{host}|{}", s.ttl_srv)));
     if w.trace.deaths().any(|d| matches!(d.ev, Ev::Death { panicked: true, .. })) {
         l.inconclusive.push(format!("daemon died in a C03 scenario (seed {seed})"));
         return;
@@ -701,6 +714,70 @@ pub fn other_search_case(seed: u64, l: &mut Local) {
             Violation::new("D2", format!("D2/no-removal-at-departure/address/{}/after-another-search-changed", if removed.is_empty() { "never" } else { "late" }),
                 format!("{full} lost its last address at +{} ms ({desc} before that); ServiceRemoved came at {:?}", due - crate::world::EPOCH, removed.iter().map(|t| t - crate::world::EPOCH).collect::<Vec<_>>()))
                 .with(json!({"scenario": desc, "trace": scen::witness_window(&w.trace, t_rx, due + 3000, 50)})),
+        );
+    }
+}
+
+/// An instance whose records are in the cache before its type is browsed for the first time (they came along
+/// with the announcement of an instance of a type that was browsed already, same host, same packet; or the
+/// daemon accepts unsolicited responses): the browse reports it from the cache. When its host's last address is
+/// withdrawn later, PTR and SRV still live, ServiceRemoved is owed one second later like for any other (D2).
+pub fn cached_before_browse_case(seed: u64, l: &mut Local) {
+    use crate::scen::Svc;
+    let mut rng = crate::util::Rng::new(seed);
+    let mut w = World::new(seed);
+    let stepping = if rng.chance(1, 3) { Stepping::Eager(10) } else { Stepping::Lazy };
+    w.set_stepping(stepping);
+    let sl = slack(stepping);
+    let h = w.add_host(scen::single_v4());
+    w.set_ip_check_interval(h, 3600);
+    let unsolicited = rng.chance(1, 2);
+    let first_ty = "_first._tcp.local.";
+    if unsolicited {
+        w.accept_unsolicited(h, true);
+    } else {
+        w.browse(h, first_ty);
+    }
+    w.run_for(rng.below(900));
+    let host = if rng.chance(1, 2) { "Two-Things.local" } else { "two-things.local" };
+    let mut s = Svc::new(browser::TY, if rng.chance(1, 2) { "Ours Early" } else { "ours" }, host, [10, 0, 0, 56]);
+    s.ttl_ptr = 4500;
+    s.ttl_srv = 120;
+    s.ttl_addr = 120;
+    let f = Svc::new(first_ty, "thing", host, [10, 0, 0, 56]);
+    let mut m = f.announce();
+    m.answers.extend(s.records().into_iter().filter(|r| r.rtype != wire::T_A && r.rtype != wire::T_AAAA));
+    w.inject_msg(h, 2, scen::peer4(56), &m);
+    w.run_for(300 + rng.below(2500));
+    let Some(chan) = (if rng.chance(1, 4) { w.browse_cache(h, browser::TY) } else { w.browse(h, browser::TY) }) else { return };
+    w.run_for(300 + rng.below(2500));
+    // the host's address is withdrawn (both services lose it; PTR and SRV of ours stay)
+    let t_bye = w.now();
+    let mut m = wire::Message::response();
+    m.answers = s.goodbye().answers.into_iter().filter(|r| r.rtype == wire::T_A || r.rtype == wire::T_AAAA).collect();
+    w.inject_msg(h, 2, scen::peer4(56), &m);
+    let due = t_bye + 1000;
+    w.run_until(due + 3000);
+    l.evaluations += 1;
+    l.distinct.insert(util::fnv_str(&format!("cached-before-browse|{unsolicited}|{stepping:?}|{host}")));
+    if w.trace.deaths().any(|d| matches!(d.ev, Ev::Death { panicked: true, .. })) {
+        l.inconclusive.push(format!("daemon died in a C05 scenario (seed {seed})"));
+        return;
+    }
+    let full = s.fullname();
+    let resolved_before = w.trace.obs(chan).any(|(e, o)| e.t <= t_bye && matches!(o, Obs::Resolved(r) if r.fullname == full));
+    if !resolved_before {
+        l.count("cached_before_browse_not_resolved_from_cache", 1);
+        return;
+    }
+    l.act("D2-cached-before-browse");
+    let removed: Vec<u64> = w.trace.obs(chan).filter_map(|(e, o)| match o { Obs::Removed(_, n) if *n == full => Some(e.t), _ => None }).collect();
+    let ok = removed.iter().any(|t| *t + 1000 >= due && *t <= due + sl);
+    if !ok {
+        l.violate(
+            Violation::new("D2", format!("D2/no-removal-at-departure/address/{}/instance-reported-from-the-cache-at-browse", if removed.is_empty() { "never" } else { "late" }),
+                format!("{full} was reported from the cache when its type was browsed; it lost its last address at +{} ms; ServiceRemoved came at {:?}", due - crate::world::EPOCH, removed.iter().map(|t| t - crate::world::EPOCH).collect::<Vec<_>>()))
+                .with(json!({"unsolicited": unsolicited, "trace": scen::witness_window(&w.trace, t_bye.saturating_sub(3000), due + 3000, 50)})),
         );
     }
 }
@@ -827,7 +904,7 @@ pub fn run_c05(report: &Report, tier: &Tier) {
          distinct by (shape, event kinds) / (timeout, answered, stepping)",
     );
     report.assume("a removal up to one second before a record's expiry is accepted (the crate treats the last second of a record as gone)");
-    for r in ["D2", "D3", "D4", "D5", "D5-interface-loss", "D2-other-search", "D2-foreign-goodbye"] {
+    for r in ["D2", "D3", "D4", "D5", "D5-interface-loss", "D2-other-search", "D2-foreign-goodbye", "D2-cached-before-browse"] {
         report.floor(r, 50);
     }
     let seed = report.seed;
@@ -843,12 +920,13 @@ pub fn run_c05(report: &Report, tier: &Tier) {
         verify_case(util::mix(seed, 0xC05_7000 + i), l);
     });
     // no removal of what is still known on an interface that is left
-    let np: u64 = if tier.thorough { 60_000 } else { 1_200 };
+    let np: u64 = if tier.thorough { 80_000 } else { 1_600 };
     run_parallel(report, np, threads(), tier.budget_s * 0.1, |i, l| {
-        match i % 3 {
+        match i % 4 {
             0 => interface_loss_case(util::mix(seed, 0xC05_9000 + i), "C05", l),
             1 => other_search_case(util::mix(seed, 0xC05_A000 + i), l),
-            _ => foreign_goodbye_case(util::mix(seed, 0xC05_B000 + i), l),
+            2 => foreign_goodbye_case(util::mix(seed, 0xC05_B000 + i), l),
+            _ => cached_before_browse_case(util::mix(seed, 0xC05_C000 + i), l),
         }
     });
 }
